@@ -528,7 +528,10 @@ class Doist(tyming.Tymist):
             doers is list of doers to remove.
 
         """
-        rdoers = [doer for doer in doers if doer in self.doers] # ensure in .doers
+        rdoers = []  # doers to remove without duplicates
+        for doer in doers:
+            if doer in self.doers and doer not in rdoers:  # ensure in .doers once
+                rdoers.append(doer)
         rdeeds = deque()  # fresh deque for deeds to remove
         deeds = self.deeds  # edit update self.deeds in place
         for i in range(len(deeds)):  # iterate once over each deed
@@ -1416,7 +1419,10 @@ class DoDoer(Doer):
             doers is list of doers to remove.
 
         """
-        rdoers = [doer for doer in doers if doer in self.doers] # ensure in .doers
+        rdoers = []  # doers to remove without duplicates
+        for doer in doers:
+            if doer in self.doers and doer not in rdoers:  # ensure in .doers once
+                rdoers.append(doer)
         rdeeds = deque()  # fresh deque for deeds to remove
         deeds = self.deeds  # edit update self.deeds in place
         for i in range(len(deeds)):  # iterate once over each deed
